@@ -28,7 +28,7 @@ func init() {
 		Level:            "fault_enumeration",
 		CrashIsViolation: true,
 		HangSeconds:      90,
-		Rule: "case = one read (reader.ReadDocument; a slice through mobile.Reader.ReadDocument) of a small simulated chip in one of the configurations {BAC, PACE-GM, PACE-CAM, BAC+AA-RSA, PACE+CA, PACE+AA-ECDSA, ...} with the response of exchange k replaced by one fault kind {empty, 1 byte, truncated by 1 / half, one bit flipped, random bytes of the same length, 70000 extra bytes, bare 6A82 / 6982 / 6700 / 6F00 / 6283 / 9000, a bare status word drawn from 36 values of every class, genuine data with another outer status, the data stripped and the trailing status kept (a bare 9000 in the clear), only the first data byte and the status}; every k of the exchange sequence x every kind is enumerated (session randomness is deterministic, so the prefix before k is identical to the clean run); plus chips without access control (no EF.CardAccess, no BAC, all files in the clear; every k x the kinds that do not alter data); plus the n-th SELECT EF of the read (every n, every configuration) x 16 status kinds {6982 6985 6A86 6282 6283 6A82 6700 6F00 6300 6981 6A80 6200 6400 9001, other outer status, drawn}; plus random multi-fault sequences; " +
+		Rule: "case = one read (reader.ReadDocument; a slice through mobile.Reader.ReadDocument) of a small simulated chip in one of the configurations {BAC, PACE-GM, PACE-CAM, BAC+AA-RSA, PACE+CA, PACE+AA-ECDSA, ...} with the response of exchange k replaced by one fault kind {empty, 1 byte, truncated by 1 / half, one bit flipped, random bytes of the same length, 70000 / 1 / 16 / 40 extra bytes, bare 6A82 / 6982 / 6700 / 6F00 / 6283 / 9000, a bare status word drawn from 36 values of every class, genuine data with another outer status, the data stripped and the trailing status kept (a bare 9000 in the clear), only the first data byte and the status}; every k of the exchange sequence x every kind is enumerated (session randomness is deterministic, so the prefix before k is identical to the clean run); plus chips without access control (no EF.CardAccess, no BAC, all files in the clear; every k x the kinds that do not alter data); plus the n-th SELECT EF of the read (every n, every configuration) x 16 status kinds {6982 6985 6A86 6282 6283 6A82 6700 6F00 6300 6981 6A80 6200 6400 9001, other outer status, drawn}; plus random multi-fault sequences; " +
 			"oracle: no crash / runaway (exchange count), every returned file byte-identical to the chip's, no step reported successful that the chip did not complete, trusted only with genuine files, an altered authentication exchange leaves an error or that step recorded as failed, an answer to SELECT EF altered into anything but 6A82 / 6283 while the chip answered 9000 leaves an error, the file, or (EF.CardAccess / EF.CardSecurity) a recorded PACE attempt / failure; an altered answer to a READ BINARY of a file (the chip delivered data with 9000; in the clear - EF.CardAccess, every file of a chip without access control - or protected) leaves an error, the file, or (EF.CardAccess / EF.CardSecurity) a recorded PACE attempt / failure; non-trivial = a fault was actually injected; distinct = (configuration, k, kind) or the fault sequence",
 		MinEvaluations: 1500,
 		Exhaustive:     func(string) bool { return true },
@@ -41,7 +41,7 @@ func init() {
 	})
 }
 
-var c11Kinds = []string{"empty", "one-byte", "truncate-1", "truncate-half", "bitflip", "random-same-length", "extra-70000", "sw-6a82", "sw-6982", "sw-6700", "sw-6f00", "sw-6283", "sw-9000", "other-outer-sw", "sw-drawn", "data-stripped-keep-status", "first-byte-only"}
+var c11Kinds = []string{"empty", "one-byte", "truncate-1", "truncate-half", "bitflip", "random-same-length", "extra-70000", "sw-6a82", "sw-6982", "sw-6700", "sw-6f00", "sw-6283", "sw-9000", "other-outer-sw", "sw-drawn", "data-stripped-keep-status", "first-byte-only", "extra-1", "extra-16", "extra-40"}
 
 // status words the kind "sw-drawn" draws from (one per case, from the case's PRNG): warnings,
 // execution and checking errors of every class, "more data" and a value that is no status word
@@ -51,7 +51,7 @@ var c11DrawnStatuses = []uint16{0x6982, 0x6985, 0x6A86, 0x6282, 0x6283, 0x6A82, 
 
 // kinds that replace or keep the data but never alter it: usable on a chip without access
 // control, where every file travels in the clear and no reader can notice garbled data
-var c11StatusKinds = []string{"empty", "one-byte", "sw-6a82", "sw-6982", "sw-6700", "sw-6f00", "sw-6283", "sw-9000", "other-outer-sw", "sw-drawn", "sw-6985", "sw-6a86", "sw-6282", "data-stripped-keep-status", "first-byte-only"}
+var c11StatusKinds = []string{"empty", "one-byte", "sw-6a82", "sw-6982", "sw-6700", "sw-6f00", "sw-6283", "sw-9000", "other-outer-sw", "sw-drawn", "sw-6985", "sw-6a86", "sw-6282", "data-stripped-keep-status", "first-byte-only", "extra-1", "extra-16", "extra-40"}
 
 // kinds applied to the n-th SELECT EF of a read
 var c11SelectKinds = []string{"sw-6982", "sw-6985", "sw-6a86", "sw-6282", "sw-6283", "sw-6a82", "sw-6700", "sw-6f00", "sw-6300", "sw-6981", "sw-6a80", "sw-6200", "sw-6400", "sw-9001", "other-outer-sw", "sw-drawn"}
@@ -78,6 +78,14 @@ func c11Fault(r *mrand.Rand, kind string, resp []byte) []byte {
 	case "extra-70000":
 		v := append([]byte{}, resp[:max(0, n-2)]...)
 		v = append(v, randBytes(r, 70000)...)
+		return append(v, resp[max(0, n-2):]...)
+	case "extra-1", "extra-16", "extra-40":
+		// a few stray octets in front of the status word: more data than was asked for, which
+		// any reader can tell from the length alone (also on a link without secure messaging)
+		var extra int
+		fmt.Sscanf(kind, "extra-%d", &extra)
+		v := append([]byte{}, resp[:max(0, n-2)]...)
+		v = append(v, randBytes(r, extra)...)
 		return append(v, resp[max(0, n-2):]...)
 	case "data-stripped-keep-status":
 		// the response data is lost, the trailing status word arrives (9000 -> a bare 9000)
